@@ -87,6 +87,9 @@ def main():
                       "ia"),
         "p0_2_oo": (lambda: itm("p0_2_oo").expand_itmd("ij", True, True),
                     "ij"),
+        "sym_denoms": (lambda: Expr(itm("t2_2").expand_itmd(
+            "ijab", True, True), real=True).expand()
+            .use_symbolic_denominators(), "ijab"),
         "reduce_t1_2": (lambda: reduce_expr(Expr(itm("t1_2").tensor(
             "ia", True) * itm("t2_1").tensor("ijab", True), real=True)).sympy,
             "jb"),
@@ -110,8 +113,13 @@ def main():
     has_ops = tgt is None
     # the free indices of the request are known: declare them (the Einstein
     # convention is not sufficient for results with denominators)
-    e = Expr(res, real=real) if has_ops else \
-        Expr(res, real=real, target_idx=list(get_symbols(tgt)))
+    kw = {"real": real}
+    if isinstance(res, Expr):
+        kw = dict(real=res.real, sym_tensors=list(res.sym_tensors) or None,
+                  antisym_tensors=list(res.antisym_tensors) or None)
+        res = res.sympy
+    e = Expr(res, **kw) if has_ops else \
+        Expr(res, target_idx=list(get_symbols(tgt)), **kw)
     out = {"request": job["request"]}
     if job["request"].startswith(("psi", "norm")):
         # requested repeatedly they must not share contracted indices
@@ -158,6 +166,45 @@ def main():
             except Exception as exc:   # zero denominators etc.
                 fps.append(f"error:{type(exc).__name__}")
         out["fp"] = fps
+        if job.get("roundtrip"):
+            # C18 under a tensor-name configuration: print -> import ->
+            # same kinds, same text, same value
+            from adcgen import import_from_sympy_latex
+            from adcgen.sympy_objects import SymbolicTensor
+            rt = {}
+            try:
+                text = str(ex)
+                back = import_from_sympy_latex(text)
+                back = Expr(back.sympy, real=ex.real,
+                            sym_tensors=list(ex.sym_tensors) or None,
+                            antisym_tensors=list(ex.antisym_tensors) or None,
+                            target_idx=list(get_symbols(tgt)))
+                rt["text"] = text[:300]
+                rt["reprint"] = str(back)[:300] if str(back) != text else None
+                k0 = {(t.name, type(t).__name__)
+                      for t in S(ex.sympy).atoms(SymbolicTensor)}
+                k1 = {(t.name, type(t).__name__)
+                      for t in S(back.sympy).atoms(SymbolicTensor)}
+                rt["kinds"] = sorted(map(str, k0 ^ k1))
+                b_sympy = rebuild_names(back.sympy, names_back) \
+                    if names_back else back.sympy
+                fps2 = []
+                for seed, (no, nv) in ((77, (2, 2)), (78, (3, 2))):
+                    m = Model(seed, no, nv)
+                    for n in (1, 2, 3):
+                        m.alias[f"t{n}cc"] = f"t{n}"
+                    try:
+                        val = evaluate(m, b_sympy, tg)
+                        fps2.append(
+                            hashlib.sha1(val.tobytes()).hexdigest()[:12])
+                    except Exception as exc:
+                        fps2.append(f"error:{type(exc).__name__}")
+                rt["fp"] = fps2
+            except Exception as exc:
+                import traceback
+                rt["error"] = f"{type(exc).__name__}: {exc}"
+                rt["trace"] = traceback.format_exc()[-800:]
+            out["roundtrip"] = rt
         if job.get("simplify") and not any(
                 x.args[1].is_negative and x.args[0].is_Add
                 for x in S(ex.sympy).atoms(__import__("sympy").Pow)):
